@@ -8,6 +8,27 @@ from vlib import facts, pathwalk
 KRESULT = lib_order.KRESULT
 
 
+def lambda_call_names(fb, fn, i, depth=0):
+    """names of the functions called by the lambdas (incl. generic-lambda instantiations and nested lambdas) that
+    appear under node i"""
+    out = set()
+    if depth > 4:
+        return out
+    for d in fn.descendants(i):
+        m = fn.nodes[d]
+        if m['k'] != 'LambdaExpr':
+            continue
+        for key in [m.get('lam')] + list(m.get('lams', [])):
+            g = fb.fn.get(key)
+            if g is None:
+                continue
+            for c in g.own_nodes():
+                if 'cn' in c:
+                    out.add(c['cn'].split('::')[-1])
+            out |= lambda_call_names(fb, g, g.raw['body'], depth + 1)
+    return out
+
+
 class WaitWalker(pathwalk.Walker):
     loop_bound = 1
 
@@ -20,16 +41,11 @@ class WaitWalker(pathwalk.Walker):
                 st.events.append(('wait', 'timed' if len(n.get('args', [])) == 2 else 'untimed', n['i'], loc))
             elif n['k'] == 'CXXOperatorCallExpr' and n.get('op') == '()' and n.get('args'):
                 # range(functor): the second pass passes a lambda that calls Reset
-                for d in fn.descendants(n['i']):
-                    m = fn.nodes[d]
-                    if m['k'] == 'LambdaExpr':
-                        g = self.fb.fn.get(m.get('lam'))
-                        if g is not None:
-                            names = [c['cn'].split('::')[-1] for c in g.calls()]
-                            if 'Reset' in names:
-                                st.events.append(('reset-pass', loc))
-                            elif 'SetCallback' in names:
-                                st.events.append(('register-pass', loc))
+                names = lambda_call_names(self.fb, fn, n['i'])
+                if 'Reset' in names:
+                    st.events.append(('reset-pass', loc))
+                elif 'SetCallback' in names:
+                    st.events.append(('register-pass', loc))
             elif last == 'SubEqual':
                 st.events.append(('subequal-call', fn.text(n['args'][0]), loc))
             elif last in ('compare_exchange_strong', 'compare_exchange_weak'):
